@@ -24,6 +24,8 @@ def str_table(crate, cat):
     scrut = set()
     import json
     for g, v in S.ret_table(b):
+        if v == ("bottom",):
+            continue  # (the "result" of a call that never comes back: the unknown-name arm, which default_arm_diverges looks at)
         if g is None or len(g) != 1:
             problems.append("arm with guard %s" % S.guard_str(g))
             continue
